@@ -687,6 +687,14 @@ Proof.
   - apply Z.eqb_neq in E. destruct (J1' E) as [rest Hr]. exists rest. rewrite Hr, <- app_assoc. reflexivity.
 Qed.
 
+(** both together, for every schedule *)
+Theorem one_outstanding_fifo_S1 : forall c t ls, Forall wf_lab ls ->
+  let s := run ls (init c t) in
+  wrs (tr s) = conc (tr s) ++ pendl s /\ exists rest, acc (tr s) = wrs (tr s) ++ rest.
+Proof.
+  intros c t ls Hw s. split; [exact (written_is_concluded_plus_outstanding_S1 c t ls Hw)|exact (written_prefix_of_accepted_S1 c t ls Hw)].
+Qed.
+
 
 
 Record SI (s : cl) : Prop := {
